@@ -111,6 +111,7 @@ structure Server where
   permSeed : Nat := 0                       -- order in which matching retained messages are delivered
   pickSeed : Nat := 0                       -- which member of each share group is selected
   orderSeed : Nat := 0                      -- order in which the share groups are visited
+  nextSeed : Nat := 0                       -- which deferred message `processPacket` releases next
 deriving Repr
 
 /-- a packet the broker writes, structurally (rendered to the harness's projection by `WPk.render`) -/
@@ -407,12 +408,19 @@ def publishToSubscribers (s : Server) (pk : Msg) : Server × List Out :=
       let (s', o) := publishToClient acc.1 i cs.2 false pk
       (s', acc.2 ++ o)) (s, inl)
 
-/-- `publishRetainedToClient(cl, sub, existed)` -/
-def publishRetainedToClient (s : Server) (i : Nat) (sub : Sub) (existed : Bool) : Server × List Out :=
+/-- radix of the per-filter digits of `permSeed` (7!: every order of up to seven matches) -/
+def permBase : Nat := 5040
+
+/-- the resolution of Go's map order for the `k`-th filter of one SUBSCRIBE packet: each filter's
+    retained matches are iterated independently, so each has its own digit of `permSeed` -/
+def permDigit (seed k : Nat) : Nat := seed / permBase ^ k % permBase
+
+/-- `publishRetainedToClient(cl, sub, existed)`; `k` = position of the filter in its SUBSCRIBE packet -/
+def publishRetainedToClient (s : Server) (i : Nat) (sub : Sub) (existed : Bool) (k : Nat) : Server × List Out :=
   if isSharedFilter sub.filter then (s, []) else
   if (sub.rh == 1 && existed) || sub.rh == 2 then (s, []) else
   let sub := if sub.ident > 0 && (sub.idents.getD []).isEmpty then { sub with idents := some [(sub.filter, sub.ident)] } else sub
-  (permuteBy s.permSeed (messages s.topics sub.filter)).foldl (fun (acc : Server × List Out) (r : Retained) =>
+  (permuteBy (permDigit s.permSeed k) (messages s.topics sub.filter)).foldl (fun (acc : Server × List Out) (r : Retained) =>
     match assocGet acc.1.rmsgs r.topic with
     | none => acc
     | some pk =>
@@ -612,10 +620,11 @@ def processSubscribe (s : Server) (i : Nat) (id subId : Nat) (filters : List Sub
   if !c.isOpen then (s, [], some 0) else
   let o1 := [Out.wrote c.conn (.suback id rcs)]
   -- retained messages for the accepted filters
-  let z := (filters.zip (rcs.zip exs)).foldl (fun (acc : Server × List Out) (x : Sub × Nat × Bool) =>
+  let z := (filters.zip (rcs.zip exs)).zipIdx.foldl (fun (acc : Server × List Out) (xk : (Sub × Nat × Bool) × Nat) =>
+    let x := xk.1
     if x.2.1 ≥ 0x80 then acc else
     let sub := { x.1 with ident := subId }
-    let (s', o) := publishRetainedToClient acc.1 i sub x.2.2
+    let (s', o) := publishRetainedToClient acc.1 i sub x.2.2 xk.2
     (s', acc.2 ++ o)) (s, [])
   (z.1, o1 ++ z.2, none)
 
@@ -656,7 +665,7 @@ def nextImmediate (s : Server) (i : Nat) : Server × List Out :=
   let c := getObj s i
   if c.inflight.length > 0 && c.sendQuota > 0 then
     -- `GetAll(true)` sorted by `uint16(Created)`: within one second the order is Go's map order
-    match (permuteBy s.permSeed (c.inflight.filter (fun m => m.expiry < 0))).head? with
+    match (permuteBy s.nextSeed (c.inflight.filter (fun m => m.expiry < 0))).head? with
     | some m =>
       let o := writeMsg s i m
       let (c, ok) := flDelete c m.id
